@@ -85,13 +85,17 @@ def build_serial(spec, type_, power_type, cls=SerialSystemElectric, **extra):
                                                 rated_power=Power_kW(num(spec)), rated_speed=Speed_rpm(spec.get("speed", 1000.0)), **extra)
 
 
-def build_electric_component(spec):
+def build_electric_component(spec, shared=None):
+    """`shared`: objects built once and used by several components of one plant (gensets given the same Engine object)."""
     k, swb, name = spec["kind"], spec["swb"], fname(spec)
     if k == "generator":
         return build_machine(spec, TypePower.POWER_SOURCE, swb, name=name)
     if k == "genset":
         gen = build_machine(spec["generator"], TypePower.POWER_SOURCE, swb, name=name + "_gen")
-        eng = build_engine(dict(spec["engine"], name=name + "_eng"))
+        if shared is not None and spec.get("engine_share"):
+            eng = shared.setdefault(("engine", spec["engine_share"]), build_engine(dict(spec["engine"], name=spec["engine_share"])))
+        else:
+            eng = build_engine(dict(spec["engine"], name=name + "_eng"))
         rect = None if spec.get("rectifier") is None else build_basic(dict(spec["rectifier"], type="RECTIFIER"), swb, TypePower.POWER_SOURCE, name + "_rect")
         return Genset(name=name, aux_engine=eng, generator=gen, rectifier=rect)
     if k == "fuel_cell_system":
@@ -141,8 +145,9 @@ class Plant:
         self.electric = self.mechanical = self.system = None
         order = spec.get("order")
         ecomps = []
+        shared = {}
         for c in spec.get("electric", []):
-            obj = build_electric_component(c)
+            obj = build_electric_component(c, shared)
             self.by_name[c["name"]] = obj
             self.by_label[("electric", fname(c), c["swb"], obj.type.name)] = c["name"]
             if c["kind"] == "pti_pto":
@@ -365,8 +370,10 @@ def gen_electric_plant(rng, n_swb=None, max_sources=3, with_storage=None, with_p
         n_swb = int(rng.choice([1, 2, 3, 4, 5], p=[0.2, 0.35, 0.25, 0.12, 0.08]))
     swbs = ids or list(range(1, n_swb + 1))
     comps_ = []
+    # a switchboard fed by storage only (battery room): allowed, it needs a source *or* storage
+    storage_only = swbs[int(rng.integers(len(swbs)))] if (len(swbs) > 1 and with_storage is not False and rng.random() < 0.2) else None
     for s in swbs:
-        for i in range(int(rng.integers(1, max_sources + 1))):
+        for i in range(0 if s == storage_only else int(rng.integers(1, max_sources + 1))):
             comps_.append(gen_source_spec(rng, f"src{s}_{i}", s, source_kinds))
         for i in range(int(rng.integers(0, 3))):
             r = float(np.round(rng.uniform(100, 1500), 0))
@@ -374,7 +381,7 @@ def gen_electric_plant(rng, n_swb=None, max_sources=3, with_storage=None, with_p
                 comps_.append({"kind": "other_load", "name": f"load{s}_{i}", "swb": s, "rated": r, "curve": comps.gen_accepted_curve(rng, r)})
             else:
                 comps_.append(gen_serial_spec(rng, "drive", f"drive{s}_{i}", s, r))
-        if (with_storage if with_storage is not None else rng.random() < 0.4):
+        if s == storage_only or (with_storage if with_storage is not None else rng.random() < 0.4):
             st = comps.gen_storage_spec(rng)
             st.update(name=f"ess{s}", swb=s)
             comps_.append(st)
@@ -384,6 +391,14 @@ def gen_electric_plant(rng, n_swb=None, max_sources=3, with_storage=None, with_p
         s0 = swbs[int(rng.integers(len(swbs)))]
         r = float(np.round(rng.uniform(100, 1500), 0))
         comps_.append({"kind": "other_load", "name": f"load{s0}_x", "swb": s0, "rated": r, "curve": comps.gen_accepted_curve(rng, r)})
+    gensets = [c for c in comps_ if c["kind"] == "genset"]
+    if len(gensets) >= 2 and rng.random() < 0.4:      # identical generating sets built around one Engine object (e = Engine(...); Genset(.., e, g1); Genset(.., e, g2))
+        a, b = gensets[0], gensets[1]
+        b["engine"] = dict(a["engine"])
+        b["generator"] = dict(b["generator"], rated=a["generator"]["rated"])
+        b["rated"] = a["generator"]["rated"]
+        b.pop("rectifier", None)
+        a["engine_share"] = b["engine_share"] = "shared_engine"
     if bus_ties is None:
         bus_ties = gen_bus_ties(rng, swbs)
     return {"type": "electric", "name": "plant", "electric": comps_, "bus_ties": bus_ties}
